@@ -1,9 +1,8 @@
 import SeqVerif.Model.C03Codec
 import SeqVerif.Model.C03Lids
-import SeqVerif.Proofs.C03IterTop
-import SeqVerif.Proofs.C03Gen
-import SeqVerif.Proofs.C03IdsProofs
-import SeqVerif.Proofs.C03TokensProofs
+import SeqVerif.Proofs.C03Posting
+import SeqVerif.Proofs.C03FracProofs
+import SeqVerif.Proofs.C03Select
 import SeqVerif.Extracted.C03
 /-!
 # C03 - answers do not depend on the fraction form (active = sealed = reloaded = any cache)
@@ -42,34 +41,6 @@ theorem c03_registry_ext_roundtrip (minTID maxTID : Nat) (c : Bool) (h1 : minTID
 
 /-! ## LID (posting) blocks: generator with any block capacity + lids.Table + iterators -/
 
-/-- hypotheses shared by the posting theorems: capacity >= 1, every posting list non-empty,
-`tid` names a token (TIDs are 1-based, in (field, value) order), its re-assigned list is strictly increasing -/
-structure PostingInput (cap : Nat) (f : Nat → Nat) (fields : List (List (List Nat))) (tid : Nat) : Prop where
-  cap_pos : 1 ≤ cap
-  nonempty : ∀ fl, fl ∈ fields → ∀ p, p ∈ fl → p ≠ []
-  tid_pos : 1 ≤ tid
-  tid_le : tid ≤ fields.flatten.length
-  sorted : Sorted (((fields.flatten[tid - 1]?).getD []).map f)
-
-theorem posting_facts {cap : Nat} {f : Nat → Nat} {fields : List (List (List Nat))} {tid : Nat}
-    (h : PostingInput cap f fields tid) :
-    WF (genBlocks cap f fields) ∧
-    postOf tid (genBlocks cap f fields) = ((fields.flatten[tid - 1]?).getD []).map f ∧
-    ∃ c, c ∈ genBlocks cap f fields ∧ c.adj ≤ tid ∧ tid ≤ c.maxTID := by
-  obtain ⟨hwf, hpost⟩ := genBlocks_spec cap f h.cap_pos fields h.nonempty
-  have hp : postOf tid (genBlocks cap f fields) = ((fields.flatten[tid - 1]?).getD []).map f := by
-    rw [hpost tid]
-    simp only [h.tid_pos, if_true, List.getElem?_map]
-    cases fields.flatten[tid - 1]? <;> simp
-  refine ⟨hwf, hp, covered_of_postOf_ne tid _ ?_⟩
-  rw [hp]
-  have hlt : tid - 1 < fields.flatten.length := by have := h.tid_pos; have := h.tid_le; omega
-  rw [List.getElem?_eq_getElem hlt]
-  have hmem : fields.flatten[tid - 1] ∈ fields.flatten := List.getElem_mem _
-  obtain ⟨fl, hfl, hp2⟩ := List.mem_flatten.mp hmem
-  have := h.nonempty fl hfl _ hp2
-  simpa using this
-
 /-- **the block list emitted by `getLIDsBlockGenerator` is consistent with `lids.Table`** for every capacity >= 1:
 every block has `GetChunksCount` chunks, none empty, neighbours are linked - so the iterators' panics
 ("unexpected LIDs count", chunk index out of range, empty chunk) are unreachable -/
@@ -82,17 +53,15 @@ for every token->LIDs map, every capacity >= 1, every tid and every window (also
 theorem c03_lidsBlocks_iterDesc_eq_filter (cap : Nat) (f : Nat → Nat) (fields : List (List (List Nat))) (tid minL maxL : Nat)
     (h : PostingInput cap f fields tid) :
     iterDesc (genBlocks cap f fields) (tableOf (genBlocks cap f fields)) tid minL maxL =
-      .ok ((((fields.flatten[tid - 1]?).getD []).map f).filter (inWin minL maxL)) := by
-  obtain ⟨hwf, hp, hex⟩ := posting_facts h
-  rw [iterDesc_spec _ tid minL maxL hwf hex (by rw [hp]; exact h.sorted), hp]
+      .ok ((((fields.flatten[tid - 1]?).getD []).map f).filter (inWin minL maxL)) :=
+  lidsBlocks_iterDesc_eq_filter cap f fields tid minL maxL h
 
 /-- **IteratorAsc (reverse order)**: the same list, descending -/
 theorem c03_lidsBlocks_iterAsc_eq_filter (cap : Nat) (f : Nat → Nat) (fields : List (List (List Nat))) (tid minL maxL : Nat)
     (h : PostingInput cap f fields tid) :
     iterAsc (genBlocks cap f fields) (tableOf (genBlocks cap f fields)) tid minL maxL =
-      .ok ((((fields.flatten[tid - 1]?).getD []).map f).filter (inWin minL maxL)).reverse := by
-  obtain ⟨hwf, hp, hex⟩ := posting_facts h
-  rw [iterAsc_spec _ tid minL maxL hwf hex (by rw [hp]; exact h.sorted), hp]
+      .ok ((((fields.flatten[tid - 1]?).getD []).map f).filter (inWin minL maxL)).reverse :=
+  lidsBlocks_iterAsc_eq_filter cap f fields tid minL maxL h
 
 /-- the table rebuilt by the loader from the registry extents equals the table kept from sealing (TIDs < 2^32) -/
 theorem c03_lidsTable_loaded_eq_preloaded (bs : List Block)
@@ -164,6 +133,55 @@ theorem c03_tokenTable_getVal (rbs base : Nat) (fields : List (List Tok)) (tid :
   refine ⟨blocks, hb, ?_⟩
   rw [getValByTID_spec rbs base blocks hc tid h1 (by rw [ha]; exact h2), ha]
 
+/-- **prefix-hint entry selection is complete**: for a field whose table entries have ascending MaxVals and whose MinVal
+is below every token, the entry range returned by `token.Table.SelectEntries(field, hint)` contains the entry of every
+token that starts with `hint` (the narrowing never hides a matching token, whatever the block layout) -/
+theorem c03_selectEntries_sound (hint minVal : Tok) (maxVals : List Tok) (v : Tok) (i : Nat)
+    (h : SelectInput hint minVal maxVals v i) :
+    (selectEntries hint minVal maxVals).1 ≤ i ∧ i < (selectEntries hint minVal maxVals).2 :=
+  select_sound hint minVal maxVals v i h
+
+example : SelectInput [98] [97] [[97, 122], [98, 98], [99]] [98, 97] 1 :=
+  ⟨by decide,
+   by intro a b hab hb
+      have hb' : b < 3 := hb
+      have : (a = 0 ∨ a = 1 ∨ a = 2) ∧ (b = 0 ∨ b = 1 ∨ b = 2) := by omega
+      rcases this with ⟨rfl | rfl | rfl, rfl | rfl | rfl⟩ <;> first | rfl | omega,
+   by decide, by decide, by decide,
+   by intro j hj
+      have : j = 0 := by omega
+      subst this; rfl,
+   by decide⟩
+
+/-! ## the fraction: active index vs the index sealed from it -/
+
+/-- **C03 (sealed = active at the index interface).**  For every quiescent active fraction (any number of documents,
+fields, tokens, posting lists; IDs in descending order with possible duplicates), every ID block size >= 1 (writer =
+reader), every LID block capacity >= 1 and every token block size: sealing succeeds, and the sealed index answers
+every call of the interface the search processor uses exactly like the active index -
+`Len`, `GetMID`, `GetRID`, `LessOrEqual` (all LIDs and IDs), `GetValByTID`, and for every token the posting node
+(`GetLIDsFromTIDs`) for every LID window in both orders.  Every search / histogram / aggregation is a function of
+these calls (frac/processor), so their answers coincide. -/
+theorem c03_sealed_eq_active (size cap rbs base : Nat) (posOf : ID → Nat) (a : Active) (h : Quiescent a)
+    (hsize : 1 ≤ size) (hcap : 1 ≤ cap) :
+    ∃ s, sealFrac size size cap rbs base posOf a = .ok s ∧ IndexAgree a s :=
+  seal_agrees size cap rbs base posOf a h hsize hcap
+
+/-- non-vacuity: 4 documents (LID 0 = system ID), inserted out of ID order, 2 fields, LID capacity 2, ID block size 2 -/
+def exampleActive : Active :=
+  { mids := [18446744073709551615, 5, 9, 7, 9], rids := [18446744073709551615, 1, 4, 7, 5],
+    allDocs := [4, 2, 3, 1],
+    fields := [[⟨[97], [4, 2, 3, 1]⟩], [⟨[120], [4, 3]⟩, ⟨[121], [2, 3, 1]⟩]] }
+
+example : Quiescent exampleActive :=
+  ⟨by decide, by decide, by decide, by decide, by decide, by decide, by
+    intro fl hfl t ht
+    simp only [exampleActive, List.mem_cons, List.not_mem_nil, or_false] at hfl
+    rcases hfl with rfl | rfl
+    · simp only [List.mem_cons, List.not_mem_nil, or_false] at ht; subst ht; exact ⟨by decide, by decide⟩
+    · simp only [List.mem_cons, List.not_mem_nil, or_false] at ht
+      rcases ht with rfl | rfl <;> exact ⟨by decide, by decide⟩⟩
+
 /-! ## Obligations on facts re-extracted from /repo on every run -/
 
 open SV.Extracted.C03
@@ -210,5 +228,10 @@ theorem c03_x_ids_at_IDsPerBlock (ids : List ID) (posOf : ID → Nat) (h : IDsIn
     lessOrEqual idsPerBlock (idsTableOf (writeIDs idsBlockSize ids posOf) ids.length) (writeIDs idsBlockSize ids posOf) lid id =
       some (if hl : lid < ids.length then idLE ids[lid] id else true) :=
   lessOrEqual_spec idsBlockSize ids posOf h hd lid id
+
+/-- the fraction theorem at the extracted constants (ID block size, LID block capacity, token block size) -/
+theorem c03_x_sealed_eq_active_at_consts (base : Nat) (posOf : ID → Nat) (a : Active) (h : Quiescent a) :
+    ∃ s, sealFrac idsBlockSize idsPerBlock lidBlockCap regularBlockSize base posOf a = .ok s ∧ IndexAgree a s :=
+  seal_agrees idsBlockSize lidBlockCap regularBlockSize base posOf a h (by decide) (by decide)
 
 end SV.Props.C03
